@@ -82,7 +82,12 @@ class Env:
 
     # ------------------------------------------------------------------
     def _install_fs(self, cp, fm, mg):
-        fs = self.fs = fakefs.FakeFS()
+        if self.want_fs == "step":
+            from .stubs import stepfs
+
+            fs = self.fs = stepfs.StepFS()
+        else:
+            fs = self.fs = fakefs.FakeFS()
         fs.makedirs("/p", exist_ok=True)
         fs.makedirs("/cwd", exist_ok=True)
         fos = fakefs.FakeOS(fs)
@@ -104,6 +109,12 @@ class Env:
 
             self._set(cp, "write_to_disk", write_to_disk)
             self._set(cp, "read_from_disk", read_from_disk)
+        if self.want_fs == "step":
+            # the REAL write_to_disk / read_from_disk run, on stubbed open / pickle / os
+            self._set(cp, "open", stepfs.StepOpen(fs))
+            self._set(cp, "pickle", stepfs.StepPickle(fs))
+            self.clock = stepfs.StepClock(fs)
+            self._set(cp, "time", self.clock)
         if self.pickle == "id":
             self._set(cp, "to_pickle", lambda o, picklelib=None: ("PKL", o))
             self._set(cp, "from_pickle", lambda s, picklelib=None: _unpkl(s))
@@ -156,7 +167,10 @@ class Env:
     def read_obj(self, p):
         """The object stored in a crop file (what read_from_disk would return)."""
         if self.mode == "sym":
-            return self.fs.get(p)
+            obj = self.fs.get(p)
+            if obj is fakefs.UNREADABLE:
+                raise EOFError("unreadable")
+            return obj
         import pickle
 
         with open(p, "rb") as f:
